@@ -8,6 +8,10 @@
 //                  K  SimpleLogRecordProcessor, Export keeps the recordable (rendered at the end of the case)
 //                  B  BatchLogRecordProcessor (real worker thread) in front of a keeping exporter
 //                  P  as K, the recordable wraps a ReadWriteLogRecord and counts the SDK-internal setter calls
+//                  Q1..Q4  BatchLogRecordProcessor with max_export_batch_size 1..4 (queue 64) in front of an exporter that only
+//                     READS what it is handed (renders every record of the span, takes nothing out): a record handed over twice
+//                     is seen twice.  During a burst (BU) its Export is held back until the last Emit returned, so that the
+//                     queue holds the whole burst when the worker's export cycles run; then ForceFlush / provider Shutdown.
 // Attribute keys and event names live in exact-size heap blocks that are FREED right after the call (ASan).
 #include <algorithm>
 #include <chrono>
@@ -364,16 +368,39 @@ static void render(const lsdk::ReadWriteLogRecord &r, const CountingRecordable *
 struct Sink
 {
   char kind;
+  size_t bsz;   // Q: max_export_batch_size
   std::mutex m;
   std::vector<std::unique_ptr<lsdk::Recordable>> kept;
   std::vector<std::string> rendered;
-  explicit Sink(char k) : kind(k) {}
+  explicit Sink(char k, size_t b = 0) : kind(k), bsz(b) {}
+  bool renders() const { return kind == 'I' || kind == 'Q'; }
+  std::string tag() const { return kind == 'Q' ? "Q" + std::to_string(bsz) : std::string(1, kind); }
   size_t count()
   {
     std::lock_guard<std::mutex> g(m);
-    return kind == 'I' ? rendered.size() : kept.size();
+    return renders() ? rendered.size() : kept.size();
   }
 };
+
+// "I" | "K" | "B" | "P" | "Q1".."Q4"
+static std::shared_ptr<Sink> parse_sink(const Tok &t)
+{
+  if (t.kind != Tok::TAG) return nullptr;
+  if (t.s.size() == 1 && std::strchr("IKBP", t.s[0])) return std::make_shared<Sink>(t.s[0]);
+  if (t.s.size() == 2 && t.s[0] == 'Q' && t.s[1] >= '1' && t.s[1] <= '4') return std::make_shared<Sink>('Q', size_t(t.s[1] - '0'));
+  return nullptr;
+}
+
+// the reading exporters wait here while a burst is being emitted
+struct Gate
+{
+  std::mutex m;
+  std::condition_variable cv;
+  bool open = true;
+  void set(bool o) { { std::lock_guard<std::mutex> g(m); open = o; } cv.notify_all(); }
+  void pass() { std::unique_lock<std::mutex> g(m); cv.wait(g, [this] { return open; }); }
+};
+static Gate g_gate;
 
 class HExporter final : public lsdk::LogRecordExporter
 {
@@ -386,11 +413,12 @@ public:
   }
   opentelemetry::sdk::common::ExportResult Export(const nostd::span<std::unique_ptr<lsdk::Recordable>> &records) noexcept override
   {
+    if (s_->kind == 'Q') g_gate.pass();
     std::lock_guard<std::mutex> g(s_->m);
     for (auto &r : records)
     {
       if (!r) continue;
-      if (s_->kind == 'I')
+      if (s_->renders())   // I: inside Emit; Q: on the batch worker - reads, takes nothing
       {
         Out o;
         render(*static_cast<lsdk::ReadWriteLogRecord *>(r.get()), nullptr, o);
@@ -418,6 +446,14 @@ static std::unique_ptr<lsdk::LogRecordProcessor> make_processor(const std::share
     // flush request), so the delay is kept short; records are kept by the exporter and read at the end whatever the timing
     opt.schedule_delay_millis = std::chrono::milliseconds(1);
     opt.max_export_batch_size = 512;
+    return std::unique_ptr<lsdk::LogRecordProcessor>(new lsdk::BatchLogRecordProcessor(std::move(ex), opt));
+  }
+  if (s->kind == 'Q')
+  {
+    lsdk::BatchLogRecordProcessorOptions opt;
+    opt.max_queue_size        = 64;
+    opt.schedule_delay_millis = std::chrono::milliseconds(1);
+    opt.max_export_batch_size = s->bsz;
     return std::unique_ptr<lsdk::LogRecordProcessor>(new lsdk::BatchLogRecordProcessor(std::move(ex), opt));
   }
   return std::unique_ptr<lsdk::LogRecordProcessor>(new lsdk::SimpleLogRecordProcessor(std::move(ex)));
@@ -754,6 +790,7 @@ private:
   std::vector<std::unique_ptr<Token>> toks_;
   std::unique_ptr<Worker> workers_[3];
   bool has_batch_ = false;
+  bool end_with_shutdown_ = false;   // the last operation was a burst that was not flushed
   std::string out_;
 
   void on(size_t t, const std::function<void()> &f)
@@ -861,9 +898,10 @@ private:
       if (s.empty() || !s[0].is_tag("PR")) throw BadCase();
       for (size_t i = 1; i < s.size(); i++)
       {
-        if (s[i].kind != Tok::TAG || s[i].s.size() != 1 || !std::strchr("IKBP", s[i].s[0])) throw BadCase();
-        sinks_.push_back(std::make_shared<Sink>(s[i].s[0]));
-        if (s[i].s[0] == 'B') has_batch_ = true;
+        auto sk = parse_sink(s[i]);
+        if (!sk) throw BadCase();
+        sinks_.push_back(sk);
+        if (sk->kind == 'B' || sk->kind == 'Q') has_batch_ = true;
         procs.push_back(make_processor(sinks_.back()));
       }
     }
@@ -913,13 +951,13 @@ private:
     }
     // the case is over: close what is still open (innermost first, on the owning thread), deliver, read
     for (size_t i = toks_.size(); i-- > 0;) close_token(i);
-    prov_->ForceFlush();
+    if (end_with_shutdown_) prov_->Shutdown(); else prov_->ForceFlush();
     Out o;
     for (auto &s : sinks_)
     {
       std::lock_guard<std::mutex> g(s->m);
-      o.tag("P").tag(std::string(1, s->kind));
-      if (s->kind == 'I')
+      o.tag("P").tag(s->tag());
+      if (s->renders())
       {
         o.unum(s->rendered.size());
         for (auto &l : s->rendered) o.add(l);
@@ -1142,10 +1180,26 @@ private:
     }
     else if (h.is_tag("AD") && op.size() == 2)
     {
-      if (op[1].kind != Tok::TAG || op[1].s.size() != 1 || !std::strchr("IKBP", op[1].s[0])) throw BadCase();
-      sinks_.push_back(std::make_shared<Sink>(op[1].s[0]));
-      if (op[1].s[0] == 'B') has_batch_ = true;
+      auto sk = parse_sink(op[1]);
+      if (!sk) throw BadCase();
+      sinks_.push_back(sk);
+      if (sk->kind == 'B' || sk->kind == 'Q') has_batch_ = true;
       prov_->AddProcessor(make_processor(sinks_.back()));
+    }
+    else if (h.is_tag("BU") && op.size() >= 5)
+    {
+      // n times EmitLogRecord(args...) in a row with the reading exporters held back, then ForceFlush (or nothing: Shutdown)
+      size_t t = nat(op[1]), l = nat(op[2]), n = nat(op[3]), fl = nat(op[4]);
+      if (fl > 1) throw BadCase();
+      RArgs a;
+      if (!parse_args(op, 5, heap_, a)) throw BadCase();
+      if (!(t < 3 && l < loggers_.size() && all_ok(a) && !any_direct(a) && n <= 32)) throw IllCase();   // half the queue: nothing can be dropped
+      auto it = sig_table().find(sig_name(a));
+      if (it == sig_table().end() || !it->second.emit) throw BadCase();
+      g_gate.set(false);
+      on(t, [&] { print_active(o); for (size_t i = 0; i < n; i++) it->second.emit(*loggers_[l], a); });
+      g_gate.set(true);
+      if (fl) print_counts(o); else end_with_shutdown_ = true;
     }
     else if (h.is_tag("NM") && op.size() == 2)
     {
@@ -1160,6 +1214,7 @@ private:
 
   void cleanup()
   {
+    g_gate.set(true);
     for (size_t i = toks_.size(); i-- > 0;) close_token(i);
     slots_.clear();
     for (auto &s : sinks_) { std::lock_guard<std::mutex> g(s->m); s->kept.clear(); }
